@@ -58,13 +58,8 @@ def digitsVal : List Char → Nat → Option Nat
   | [], acc => some acc
   | c :: cs, acc => if isDigit c then digitsVal cs (acc * 10 + (c.toNat - 48)) else none
 
-/-- strconv.Atoi on a 64-bit platform: optional sign, at least one digit, only 0-9 (no underscores in base 10),
-    value within int64, otherwise an error -/
-def atoi (s : Name) : Option Int :=
-  let (neg, ds) : Bool × Name := match s with
-    | '-' :: r => (true, r)
-    | '+' :: r => (false, r)
-    | r => (false, r)
+/-- the unsigned part of strconv.Atoi: at least one digit, only 0-9 (no underscores in base 10), result within int64 -/
+def atoiU (neg : Bool) (ds : Name) : Option Int :=
   match ds with
   | [] => none
   | _ :: _ =>
@@ -73,6 +68,12 @@ def atoi (s : Name) : Option Int :=
     | some v =>
       if neg then (if v ≤ 2 ^ 63 then some (-(v : Int)) else none)
       else (if v < 2 ^ 63 then some (v : Int) else none)
+
+/-- strconv.Atoi on a 64-bit platform: optional sign, then `atoiU`; anything else is an error -/
+def atoi : Name → Option Int
+  | '-' :: r => atoiU true r
+  | '+' :: r => atoiU false r
+  | r => atoiU false r
 
 /-- `dependencyNameLess` of instance.go (after commit 5b98158), line by line -/
 def depLess (a b : Name) : Bool :=
@@ -666,6 +667,9 @@ def Node.payload {V J} (E : Env V J) (n : Node V) : Option V :=
 /-- at most one File/Image parameter holds a payload: then every payload is the last buffer view of the saved file
     (jbtf v0.2.0 `Bytes.Deserialize` reads to the end of the buffer; see `file_payload_concatenated`) -/
 def FilePayloadLast {V J} (E : Env V J) (g : Graph V) : Prop := (g.nodes.filterMap (Node.payload E)).length ≤ 1
+
+instance {V J} (E : Env V J) (g : Graph V) : Decidable (FilePayloadLast E g) := by
+  unfold FilePayloadLast; infer_instance
 
 end GraphIO
 end PolyVerif
